@@ -180,6 +180,11 @@ func redactCommand(cmd *orderedmap.OrderedMap[string, any], shouldEagerRedact bo
 			cmd.Set("updates", redactArrayValues(updatesArr, shouldEagerRedact, false, false, []string{}))
 		}
 	}
+	if arrayFilters, ok := cmd.Get("arrayFilters"); ok {
+		if arrayFiltersArr, ok := arrayFilters.([]any); ok {
+			cmd.Set("arrayFilters", redactArrayValues(arrayFiltersArr, shouldEagerRedact, false, false, []string{}))
+		}
+	}
 	if deletes, ok := cmd.Get("deletes"); ok {
 		if deletesArr, ok := deletes.([]any); ok {
 			cmd.Set("deletes", redactArrayValues(deletesArr, shouldEagerRedact, false, false, []string{}))
